@@ -202,12 +202,11 @@ class ProductErrorNode(ErrorNode):
             print(f"{indent}While parsing field '{field}':\n{indent}  ", end="", file=file)
             child.print_error(f"{indent}  ", file=file)
 
-        for field in self.missing:
-            if not isinstance(field, str):
-                field = '/'.join(field)
+        # `missing` and `extra` are sets: sorted, so that the report doesn't depend on hash order
+        for field in sorted(f if isinstance(f, str) else '/'.join(f) for f in self.missing):
             print(f"{indent}  Missing required field '{field}'", file=file)
 
-        for field in self.extra:
+        for field in sorted(self.extra, key=str):
             print(f"{indent}  Unexpected field '{field}'", file=file)
 
 
